@@ -2,6 +2,7 @@ import FgaVerif.Proofs.Clean
 import FgaVerif.Proofs.Listener
 import FgaVerif.Proofs.LineNumbers
 import FgaVerif.Proofs.LexDriver
+import FgaVerif.Proofs.LexMunch
 /-!
 # C16 — reported error positions lie inside the input and on the offending text
 
@@ -36,6 +37,42 @@ input.  Proved here, for **every** input (list of characters):
   for whatever automaton a grammar change puts into the lexer.  Together with `clean_prefix` this gives
   "inside the input" for every position the lexer reports (token recognition errors) or attaches to a
   token (which is where the parser's and the listener's errors are reported).
+
+* `munch_*` — what the **matcher** of the lexer model computes (`LexSim.matchOne`, the port of
+  `LexerATNSimulator.execATN` + `failOrAccept`), for an **arbitrary** automaton, in terms of the sequence of
+  configuration sets `setAt` (`startSet`, then one `reachSet` per character — `munch_setAt_succ`; the run
+  ends at the first empty reach set or at the end of the input) and of `acceptAt k`, the rule and actions
+  of the *first* stop configuration of the set after `k` characters (what the runtime records as
+  `prevAccept`):
+  - `munch_accept_is_longest` (+ `munch_accept_iff`) — **maximal munch**: `.accept len rule acts` exactly
+    when the fuel never runs out, `acceptAt len = some (rule, acts)` and `acceptAt k = none` for every
+    `k > len`; `len ≤` the number of characters the run consumes `≤` the length of the input;
+  - `munch_accept_is_first_rule`, `munch_accept_min_alt` — **rule priority**: the reported rule is that of
+    the first configuration, in the order of the set, that is in a rule stop state; the sets are ordered
+    by alternative (alternative `i+1` = the `i`-th transition of the mode's start state, i.e. the `i`-th
+    rule of the mode in grammar order; no other number occurs — `munch_alt_range`), so no stop
+    configuration of the set has a smaller alternative;
+  - `munch_fail_means_no_accept` (+ `munch_fail_iff`), `munch_error_item` — `.fail n`: no rule accepts at
+    any position, `n` is exactly the number of characters the run consumed, the input is not empty; the
+    token loop turns it into one error item of `min (n+1) (length)` ≥ 1 characters (and an accept of
+    `len > 0` into a token of exactly the first `len` characters — `munch_token_item`);
+  - `munch_eof_iff`, `munch_empty_input` — `.eof` exactly on the empty input when the start set has no stop
+    configuration (**not** "iff the input is empty": with a rule that matches the empty string the answer
+    on the empty input is a zero-length accept — `example` with `emptySim`);
+  - `munch_stuck_iff_fuel`, `munch_closure_fuel_mono`, `munch_stuck_possible` — `.stuck` exactly when a
+    `startSet`/`reachSet` of the run ran out of closure fuel; more fuel never changes an answer of
+    `closure`; but `.stuck` can **not** be excluded for an arbitrary automaton whatever the fuel: an
+    epsilon cycle (`loopSim`) makes `closure` fail for every fuel (the runtime's `closure` recurses without end);
+  - `munch_accept_len_positive_or_empty_rule` — a zero-length accept happens only when the start set of
+    the mode contains a stop configuration (a rule matching the empty string) and nothing accepts later;
+    the token loop then stops with `abort "empty match"` (the runtime emits an empty token without consuming anything).
+  "Longest" is relative to the sets the port computes: `reachSet` drops, as the runtime does, the
+  configurations that passed through a non-greedy decision once their alternative has reached a rule stop
+  state (`reachSet_skips_nongreedy`), so with `'"' .*? '"'` the run itself ends at the first closing quote
+  (`example`s with `quoteSim`).
+  Non-vacuity: `toySim` (`IF : 'if'; ID : [a-z]+; WS : ' ' -> skip; ARROW : '->'`) — `ifx` is one
+  identifier (longest match), `if` the keyword (both rules accept at 2; the first wins), `-x` an error of
+  two characters.
 
 Not proved: that ANTLR's *parser* reports its errors at the position of a token of the stream (its error
 strategy is not modelled; bounds-checked by the oracle on every rejected input, exact positions checked
@@ -176,5 +213,261 @@ example : Merge.lineWithPrefix "define viewer" kfFile = some 3 := by decide
 example : (Merge.constructLineAndColumnData ["    define e: [doc]".toList] (some 0) "e").colStart = 5 := by decide
 /-- KF-C16-spacing-not-found: two blanks after the keyword and the declaration is not found -/
 example : Merge.lineWithPrefix "type doc" ["type  doc".toList] = none := by decide
+
+
+/-! ### what the matcher of the lexer model computes: maximal munch with rule priority -/
+section Munch
+open FgaVerif.Model.LexSim FgaVerif.Model.LexSim.LexMunch
+
+/-- the sequence of sets: the start set, then `reachSet` of the previous set on the next character; the
+    run ends (`stopped`) at the end of the input or at the first empty reach set, and is out of fuel
+    (`nofuel`) from the first `startSet`/`reachSet` that is -/
+theorem munch_setAt_succ (sim : Sim) (s0 : Option (Array Config)) (input : List Char) (k : Nat) :
+    setAt sim s0 input 0 = (match s0 with | none => .nofuel | some s => .set s) ∧
+    setAt sim s0 input (k+1) =
+      match setAt sim s0 input k with
+      | .set cs =>
+        match input[k]? with
+        | none => .stopped
+        | some ch =>
+          match reachSet sim ch.toNat cs.toList #[] none with
+          | none => .nofuel
+          | some r => if r.isEmpty then .stopped else .set r
+      | .stopped => .stopped
+      | .nofuel => .nofuel := by
+  cases s0 with
+  | none => exact ⟨rfl, rfl⟩
+  | some s => exact ⟨setFrom_zero sim s input, setFrom_succ sim input s k⟩
+
+/-- a position is reached by the run exactly when it is at most `runLen`, which is at most the length -/
+theorem munch_runLen (sim : Sim) (s : Array Config) (input : List Char) (k : Nat) :
+    ((∃ cs, setAt sim (some s) input k = .set cs) ↔ k ≤ runLen sim (some s) input) ∧
+    runLen sim (some s) input ≤ input.length :=
+  ⟨setAt_set_iff sim s input k, runLen_le_length sim _ input⟩
+
+/-- **maximal munch**: an accepted length is the last position at which a rule accepts — the rule and
+    actions are those recorded there, nothing is recorded at any later position, and the length is among
+    the positions the run reaches -/
+theorem munch_accept_is_longest (sim : Sim) (starts : Array (Option (Array Config))) (mode : Nat) (input : List Char)
+    (len rule : Nat) (acts : List Nat) (h : matchOne sim starts mode input = .accept len rule acts) :
+    acceptAt sim (starts.getD mode none) input len = some (rule, acts) ∧
+    (∀ k, len < k → acceptAt sim (starts.getD mode none) input k = none) ∧
+    len ≤ runLen sim (starts.getD mode none) input ∧
+    runLen sim (starts.getD mode none) input ≤ input.length ∧ len ≤ input.length := by
+  obtain ⟨_, h2, h3, h4, h5⟩ := matchOne_accept sim starts mode input len rule acts h
+  exact ⟨h2, h3, h4, runLen_le_length sim _ input, h5⟩
+
+/-- … and conversely: this characterises the accept -/
+theorem munch_accept_iff (sim : Sim) (starts : Array (Option (Array Config))) (mode : Nat) (input : List Char)
+    (len rule : Nat) (acts : List Nat) :
+    matchOne sim starts mode input = .accept len rule acts ↔
+      (∀ k, setAt sim (starts.getD mode none) input k ≠ .nofuel) ∧
+      acceptAt sim (starts.getD mode none) input len = some (rule, acts) ∧
+      (∀ k, len < k → acceptAt sim (starts.getD mode none) input k = none) :=
+  matchOne_accept_iff sim starts mode input len rule acts
+
+/-- **rule priority**: the set after `len` characters is an ordered list `pre ++ cfg :: post` in which
+    `cfg` is in a rule stop state and no configuration of `pre` is; the rule and the actions reported are
+    those of `cfg` -/
+theorem munch_accept_is_first_rule (sim : Sim) (starts : Array (Option (Array Config))) (mode : Nat) (input : List Char)
+    (len rule : Nat) (acts : List Nat) (h : matchOne sim starts mode input = .accept len rule acts) :
+    ∃ cs pre cfg post, setAt sim (starts.getD mode none) input len = .set cs ∧ cs.toList = pre ++ cfg :: post ∧
+      isStop sim cfg = true ∧ (∀ c ∈ pre, isStop sim c = false) ∧
+      rule = (stateOf sim cfg.state).rule ∧ acts = cfg.acts :=
+  (acceptAt_eq_some_iff sim _ input len rule acts).1 (matchOne_accept sim starts mode input len rule acts h).2.1
+
+/-- **rule priority, by alternative**: from the start set of a mode (`computeStartState` numbers the
+    transitions of the mode's start state 1, 2, … in order, one per rule of the mode in grammar order)
+    every set of the run is ordered by alternative, so the accepting configuration has the smallest
+    alternative among the stop configurations of its set -/
+theorem munch_accept_min_alt (sim : Sim) (starts : Array (Option (Array Config))) (mode : Nat) (input : List Char)
+    (hst : starts.getD mode none = startSet sim mode)
+    (len rule : Nat) (acts : List Nat) (h : matchOne sim starts mode input = .accept len rule acts) :
+    ∃ cs cfg, setAtMode sim mode input len = .set cs ∧ firstStop sim cs = some cfg ∧
+      rule = (stateOf sim cfg.state).rule ∧ acts = cfg.acts ∧ AltSorted cs.toList ∧
+      ∀ c ∈ cs.toList, isStop sim c = true → cfg.alt ≤ c.alt := by
+  obtain ⟨cs, pre, cfg, post, hset, hsplit, hstop, hpre, hr, ha⟩ :=
+    munch_accept_is_first_rule sim starts mode input len rule acts h
+  rw [hst] at hset
+  have hsorted := setAtMode_sorted sim mode input len cs hset
+  have hfs := (firstStop_eq_some_iff sim cs cfg).2 ⟨hstop, pre, post, hsplit, hpre⟩
+  exact ⟨cs, cfg, hset, hfs, hr, ha, hsorted, firstStop_min_alt sim cs cfg hsorted hfs⟩
+
+/-- the alternatives are the numbers (from 1) of the transitions of the mode's start state, i.e. of the
+    rules of the mode in grammar order: no other number occurs in any set of the run -/
+theorem munch_alt_range (sim : Sim) (mode : Nat) (input : List Char) (k : Nat) (cs : Array Config)
+    (h : setAtMode sim mode input k = .set cs) :
+    AltSorted cs.toList ∧
+    ∀ x ∈ cs.toList, 1 ≤ x.alt ∧ x.alt ≤ (stateOf sim (sim.modeStart.getD mode 0)).trans.size :=
+  ⟨setAtMode_sorted sim mode input k cs h, setAtMode_alts sim mode input k cs h⟩
+
+/-- the token the loop emits for an accept of at least one character (when no lexer action aborts): its
+    text is exactly the first `len` characters — the maximal munch of `munch_accept_is_longest` -/
+theorem munch_token_item (sim : Sim) (starts : Array (Option (Array Config))) (rtt : Array Nat)
+    (actions : Array (Nat × Nat × Nat)) (f : Nat) (st : LexState) (pos : Nat × Nat) (c : Char) (cs : List Char)
+    (len rule : Nat) (as : List Nat) (h : matchOne sim starts st.mode (c :: cs) = .accept len rule as) (hl : 0 < len)
+    (hab : (runActions actions as { ty := -100, channel := 0, st := st, abort := none }).abort = none) :
+    ∃ ty ch, (lexLoop (matchOne sim starts) rtt actions (f+1) st pos (c :: cs)).head? =
+        some (.tok { ty := ty, text := (c :: cs).take len, line := pos.1, col := pos.2, channel := ch }) ∧
+      ((c :: cs).take len).length = len := by
+  obtain ⟨ty, ch, heq⟩ := lexLoop_accept_step (matchOne sim starts) rtt actions f st pos c cs len rule as h hl hab
+  refine ⟨ty, ch, by rw [heq]; rfl, ?_⟩
+  have := (matchOne_accept sim starts st.mode (c :: cs) len rule as h).2.2.2.2
+  simp only [List.length_take]
+  omega
+
+/-- the matcher `lexAll` uses takes its start sets from `startSet`, for the modes the automaton has -/
+theorem munch_lexAll_starts (sim : Sim) (text : List Char) (mode : Nat) (hm : mode < sim.modeStart.size) :
+    lexAll sim text = lexLoop (matchOne sim (startsOf sim)) sim.ruleTokenType sim.actions (text.length + 2) {} (1, 0) text ∧
+    (startsOf sim).getD mode none = startSet sim mode := by
+  refine ⟨rfl, ?_⟩
+  rw [startsOf_getD, if_pos hm]
+
+/-- **a failure means that no rule accepts anywhere**, and the count is exactly the number of characters
+    the run consumed (at most the length of the input, which is not empty) -/
+theorem munch_fail_means_no_accept (sim : Sim) (starts : Array (Option (Array Config))) (mode : Nat) (input : List Char)
+    (n : Nat) (h : matchOne sim starts mode input = .fail n) :
+    (∀ k, acceptAt sim (starts.getD mode none) input k = none) ∧
+    n = runLen sim (starts.getD mode none) input ∧ n ≤ input.length ∧ input ≠ [] := by
+  obtain ⟨_, h2, h3, h4, h5⟩ := matchOne_fail sim starts mode input n h
+  exact ⟨h2, h3, h4, h5⟩
+
+theorem munch_fail_iff (sim : Sim) (starts : Array (Option (Array Config))) (mode : Nat) (input : List Char) (n : Nat) :
+    matchOne sim starts mode input = .fail n ↔
+      (∀ k, setAt sim (starts.getD mode none) input k ≠ .nofuel) ∧
+      (∀ k, acceptAt sim (starts.getD mode none) input k = none) ∧
+      n = runLen sim (starts.getD mode none) input ∧ input ≠ [] :=
+  matchOne_fail_iff sim starts mode input n
+
+/-- the error item of the token loop for a failure: the `n` characters the run consumed and the one it
+    could not consume, if there is one (`min (n+1) length`, at least 1, characters) — the span that
+    `lexer_items_partition_input` accounts for -/
+theorem munch_error_item (sim : Sim) (starts : Array (Option (Array Config))) (rtt : Array Nat)
+    (actions : Array (Nat × Nat × Nat)) (f : Nat) (st : LexState) (pos : Nat × Nat) (c : Char) (cs : List Char) (n : Nat)
+    (h : matchOne sim starts st.mode (c :: cs) = .fail n) :
+    n = runLen sim (starts.getD st.mode none) (c :: cs) ∧
+    (∀ k, acceptAt sim (starts.getD st.mode none) (c :: cs) k = none) ∧
+    (lexLoop (matchOne sim starts) rtt actions (f+1) st pos (c :: cs)).head? =
+      some (.err ((c :: cs).take (n+1)) pos.1 pos.2) ∧
+    ((c :: cs).take (n+1)).length = min (n+1) (cs.length + 1) ∧ 1 ≤ ((c :: cs).take (n+1)).length :=
+  lexLoop_error_text rtt actions sim starts f st pos c cs n h
+
+/-- `.eof` exactly on the empty input, provided the start set has no stop configuration -/
+theorem munch_eof_iff (sim : Sim) (starts : Array (Option (Array Config))) (mode : Nat) (input : List Char) :
+    matchOne sim starts mode input = .eof ↔
+      input = [] ∧ ∃ s, starts.getD mode none = some s ∧ firstStop sim s = none :=
+  matchOne_eof_iff sim starts mode input
+
+/-- all the answers on the empty input -/
+theorem munch_empty_input (sim : Sim) (starts : Array (Option (Array Config))) (mode : Nat) :
+    matchOne sim starts mode [] =
+      match starts.getD mode none with
+      | none => .stuck
+      | some s =>
+        match firstStop sim s with
+        | some cfg => .accept 0 (stateOf sim cfg.state).rule cfg.acts
+        | none => .eof :=
+  matchOne_nil sim starts mode
+
+/-- `.stuck` exactly when the closure fuel ran out: in the start set (position 0) or in the `reachSet`
+    that leads to a position of the input -/
+theorem munch_stuck_iff_fuel (sim : Sim) (starts : Array (Option (Array Config))) (mode : Nat) (input : List Char) :
+    matchOne sim starts mode input = .stuck ↔
+      ∃ k, k ≤ input.length ∧ setAt sim (starts.getD mode none) input k = .nofuel :=
+  matchOne_stuck_iff sim starts mode input
+
+/-- fuel is only fuel: an answer of `closure` is the answer with any larger fuel -/
+theorem munch_closure_fuel_mono (sim : Sim) (f g : Nat) (hfg : f ≤ g) (cfg : Config) (cs : Array Config) (reached : Bool)
+    (res : Array Config × Bool) (h : closure sim f cfg cs reached = some res) :
+    closure sim g cfg cs reached = some res :=
+  closure_fuel_mono sim f g hfg cfg cs reached res h
+
+/-- … but no amount of fuel excludes `.stuck` for an arbitrary automaton: with an epsilon cycle `closure`
+    fails for **every** fuel, and the matcher is stuck on every input -/
+theorem munch_stuck_possible :
+    (∀ (f : Nat) (cs : Array Config) (r : Bool),
+      closure loopSim f { state := 1, alt := 1, ctx := [], ng := false, acts := [] } cs r = none) ∧
+    ∀ input, matchOne loopSim (startsOf loopSim) 0 input = .stuck :=
+  ⟨fun f cs r => (loopSim_closure_none f).1 _ cs r rfl, loopSim_stuck⟩
+
+/-- **zero-length accepts**: `len = 0` only when the start set of the mode contains a stop configuration
+    (some rule matches the empty string), whose rule and actions are reported; the token loop then stops
+    with `abort "empty match"`.  Without such a configuration every accept has at least one character. -/
+theorem munch_accept_len_positive_or_empty_rule (sim : Sim) (starts : Array (Option (Array Config))) (mode : Nat)
+    (input : List Char) (len rule : Nat) (acts : List Nat) (h : matchOne sim starts mode input = .accept len rule acts) :
+    0 < len ∨
+    (len = 0 ∧ ∃ s cfg, starts.getD mode none = some s ∧ firstStop sim s = some cfg ∧
+      rule = (stateOf sim cfg.state).rule ∧ acts = cfg.acts) := by
+  cases len with
+  | succ n => exact Or.inl (Nat.succ_pos n)
+  | zero => exact Or.inr ⟨rfl, matchOne_accept_zero sim starts mode input rule acts h⟩
+
+theorem munch_empty_match_aborts (matcher : Nat → List Char → MatchRes) (rtt : Array Nat)
+    (actions : Array (Nat × Nat × Nat)) (f : Nat) (st : LexState) (pos : Nat × Nat) (c : Char) (cs : List Char)
+    (rule : Nat) (as : List Nat) (h : matcher st.mode (c :: cs) = .accept 0 rule as) :
+    lexLoop matcher rtt actions (f+1) st pos (c :: cs) = [.abort "empty match"] :=
+  lexLoop_accept_zero_step matcher rtt actions f st pos c cs rule as h
+
+/-! non-vacuity, on hand-built automata (`Proofs/LexMunch.lean`): `toySim` is
+    `IF : 'if' ;  ID : [a-z]+ ;  WS : ' ' -> skip ;  ARROW : '->' ;` (rules 0–3) -/
+deriving instance DecidableEq for Config
+deriving instance DecidableEq for MatchRes
+deriving instance DecidableEq for Token
+deriving instance DecidableEq for Item
+
+/-- the start set: one configuration per rule, in grammar order (alternatives 1 to 4) -/
+example : startSet toySim 0 = some #[
+    { state := 2, alt := 1, ctx := [], ng := false, acts := [] }, { state := 6, alt := 2, ctx := [], ng := false, acts := [] },
+    { state := 10, alt := 3, ctx := [], ng := false, acts := [] }, { state := 14, alt := 4, ctx := [], ng := false, acts := [] }] := by
+  with_unfolding_all decide
+/-- longest match: `ifx` is one identifier (rule 1), although the keyword accepts at 2 -/
+example : matchOne toySim (startsOf toySim) 0 "ifx y".toList = .accept 3 1 [] := by with_unfolding_all decide
+example : (List.range 6).map (acceptAtMode toySim 0 "ifx y".toList) =
+    [none, some (1, []), some (0, []), some (1, []), none, none] := by with_unfolding_all decide
+example : runLen toySim (startSet toySim 0) "ifx y".toList = 3 := by with_unfolding_all decide
+/-- priority: after `if` both the keyword (alternative 1) and the identifier (alternative 2) are in a stop
+    state; the keyword (rule 0) is reported -/
+example : matchOne toySim (startsOf toySim) 0 "if y".toList = .accept 2 0 [] := by with_unfolding_all decide
+example : stopAlts toySim (setAtMode toySim 0 "if y".toList 2) = [1, 2] := by with_unfolding_all decide
+/-- the actions of the accepting configuration: `-> skip` is action 0 -/
+example : matchOne toySim (startsOf toySim) 0 " y".toList = .accept 1 2 [0] := by with_unfolding_all decide
+/-- failures: nothing consumed; one character consumed and the next refused; one consumed and the input ends -/
+example : matchOne toySim (startsOf toySim) 0 "1".toList = .fail 0 := by with_unfolding_all decide
+example : matchOne toySim (startsOf toySim) 0 "-x".toList = .fail 1 := by with_unfolding_all decide
+example : matchOne toySim (startsOf toySim) 0 "-".toList = .fail 1 := by with_unfolding_all decide
+example : matchOne toySim (startsOf toySim) 0 [] = .eof := by with_unfolding_all decide
+/-- a mode the automaton does not have -/
+example : matchOne toySim (startsOf toySim) 1 "if".toList = .stuck := by with_unfolding_all decide
+/-- the whole loop: keyword, identifier, a two-character error (`-x`: one consumed + 1), arrow, EOF -/
+example : lexAll toySim "if ifx -x->".toList =
+    [.tok { ty := 1, text := "if".toList, line := 1, col := 0, channel := 0 },
+     .tok { ty := -3, text := " ".toList, line := 1, col := 2, channel := 0 },
+     .tok { ty := 2, text := "ifx".toList, line := 1, col := 3, channel := 0 },
+     .tok { ty := -3, text := " ".toList, line := 1, col := 6, channel := 0 },
+     .err "-x".toList 1 7,
+     .tok { ty := 4, text := "->".toList, line := 1, col := 9, channel := 0 },
+     .tok { ty := -1, text := [], line := 1, col := 11, channel := 0 }] := by with_unfolding_all decide
+/-- `emptySim` is `AS : 'a'* ;`: the start set contains a stop configuration, so the answer on the empty
+    input is a zero-length accept and **not** `.eof`; before a `b` the token loop stops -/
+example : matchOne emptySim (startsOf emptySim) 0 [] = .accept 0 0 [] := by with_unfolding_all decide
+example : matchOne emptySim (startsOf emptySim) 0 "b".toList = .accept 0 0 [] := by with_unfolding_all decide
+example : matchOne emptySim (startsOf emptySim) 0 "aab".toList = .accept 2 0 [] := by with_unfolding_all decide
+example : lexAll emptySim "ab".toList =
+    [.tok { ty := 1, text := "a".toList, line := 1, col := 0, channel := 0 }, .abort "empty match"] := by
+  with_unfolding_all decide
+
+/-- "longest" is among the positions the *pruned* simulation reaches, not among the prefixes in the
+    language of a rule: with the non-greedy `Q : '"' .*? '"'` the run on `"a"b"` ends after the first
+    closing quote (the configurations that passed through the non-greedy decision are dropped once the
+    alternative has reached its stop state), with the greedy `'"' .* '"'` it goes on to the last one -/
+example : matchOne (quoteSim true) (startsOf (quoteSim true)) 0 "\"a\"b\"".toList = .accept 3 0 [] := by
+  with_unfolding_all decide
+example : runLen (quoteSim true) (startSet (quoteSim true) 0) "\"a\"b\"".toList = 3 := by with_unfolding_all decide
+example : matchOne (quoteSim false) (startsOf (quoteSim false)) 0 "\"a\"b\"".toList = .accept 5 0 [] := by
+  with_unfolding_all decide
+example : (List.range 7).map (acceptAtMode (quoteSim false) 0 "\"a\"b\"".toList) =
+    [none, none, none, some (0, []), none, some (0, []), none] := by with_unfolding_all decide
+
+end Munch
 
 end FgaVerif.Props.C16
